@@ -37,6 +37,11 @@ def check(run, prog, tier):
     rule_A(run, prog, f)
     rule_B(run, prog, f)
     rule_C(run, prog)
+    run.rule("C20-I", "'for every number of processes and every integer range': the blocks are a function of the arguments of the "
+                      "call.  The range calculators read of the shared configuration only what identifies the process (size, rank) "
+                      "or what they have stored themselves earlier in the same call on every path - never what an earlier call (of "
+                      "this or another helper) left there", minimum=3)
+    rule_I(run, prog)
     run.rule("C20-D", "concrete cross-check: the blocks of every rank partition the range (finite evaluation)", minimum=3)
     rule_D(run, prog, f, tier)
     run.rule("C20-E", "the public block helpers hand every rank exactly its block, with and without indices "
@@ -53,6 +58,55 @@ def check(run, prog, tier):
                       "loop is allocated in the same pass of the loop when it is handed on (a setter that keeps the array by reference "
                       "would otherwise keep one array for all items of a process)", minimum=1)
     rule_H(run, prog)
+
+
+def rule_I(run, prog):
+    """config is one object per process and every helper writes into it (config.ranges, config.range).  A calculator that
+    returns or tests something read from it - `config.ranges[config.rank]` under 'same length as last time', getattr of a
+    remembered key - hands out the blocks of whichever loop ran last."""
+    rid = "C20-I"
+    ident = {"size", "rank"}
+    n = 0
+    for nme in ("_calculate_ranges", "_calculate_ranges_list", "_calculate_ranges_array"):
+        f = prog.func(PAR + nme)
+        prog.consulted.add(f.relpath)
+        if not f.node.args.args:
+            raise AnalysisError("%s has no parameters" % nme)
+        cfg = f.node.args.args[0].arg
+        n += 1
+        bad = []
+        # attributes of the configuration stored unconditionally at the top level of the body, with the line of the store
+        stored = {}
+        for st in f.node.body:
+            if isinstance(st, ast.Assign):
+                for t_ in st.targets:
+                    if isinstance(t_, ast.Attribute) and isinstance(t_.value, ast.Name) and t_.value.id == cfg:
+                        stored.setdefault(t_.attr, st.lineno)
+        for x in walk_no_nested(f.node):
+            attr = None
+            if isinstance(x, ast.Attribute) and isinstance(x.ctx, ast.Load) and isinstance(x.value, ast.Name) and x.value.id == cfg:
+                attr = x.attr
+            elif isinstance(x, ast.Call) and call_name(x) in ("getattr", "hasattr") and len(x.args) >= 2 and \
+                    isinstance(x.args[0], ast.Name) and x.args[0].id == cfg:
+                attr = x.args[1].value if isinstance(x.args[1], ast.Constant) else "<computed>"
+            elif isinstance(x, ast.Call) and any(isinstance(a_, ast.Call) and call_name(a_) == "vars" and a_.args
+                                                 and isinstance(a_.args[0], ast.Name) and a_.args[0].id == cfg for a_ in [x]):
+                attr = "<vars>"
+            elif isinstance(x, ast.Attribute) and x.attr == "__dict__" and isinstance(x.value, ast.Name) and x.value.id == cfg:
+                attr = "<__dict__>"
+            if attr is None or attr in ident:
+                continue
+            if attr in stored and stored[attr] < x.lineno:
+                continue
+            bad.append((attr, x.lineno))
+        run.obligation(rid, "core.parallel." + nme, not bad, key="function-of-arguments",
+                       message="%s reads %s of the shared configuration, which this call has not stored: the blocks it hands out "
+                               "depend on what an earlier distributed loop left there, not only on the range and the number of "
+                               "processes" % (nme, ", ".join("%s.%s (line %d)" % (cfg, a_, l_) for a_, l_ in bad[:3])),
+                       loc="%s:%d" % (f.relpath, (bad[0][1] if bad else f.node.lineno)),
+                       sample={"function": nme, "reads": [a_ for a_, _ in bad]})
+    if n < 3:
+        raise AnalysisError("C20-I: the three range calculators were not found")
 
 
 _FRESH_CTORS = ("zeros", "empty", "ones", "zeros_like", "empty_like", "ones_like", "full", "array", "copy", "ndarray")
